@@ -329,3 +329,83 @@ class AggregatorRig:
                 ("plot_logs", DMdl.PlotLog), ("plot_log_entries", DMdl.PlotLogEntry),
                 ("plot_values", DMdl.PlotLogEntryValue), ("recent_runs", DMdl.RecentRun),
                 ("recent_engines", DMdl.RecentEngine))}
+
+    # -- appended for C28 (calendar-time stratum)
+    def recent_engine_last_update(self, engine_id: str):
+        """`last_update` (aware datetime) of the engine's RecentEngines row, None if there is no row."""
+        with database.create_scope():
+            s = database.scoped_session()
+            return s.scalar(select(DMdl.RecentEngine.last_update).where(DMdl.RecentEngine.engine_id == engine_id))
+
+
+# ------------------------------------------------------------------ controllable aggregator calendar (C28 only)
+class AggregatorClock:
+    """Harness-side calendar of the aggregator *process(es)*: every wall-clock read of the aggregator code
+    (`datetime.now(..)` in openpectus.aggregator.data.repository and openpectus.aggregator.aggregator, `time.time()` in
+    openpectus.aggregator.aggregator / .models / .webpush_publisher) answers real time + `offset` seconds, so a history
+    can let calendar time pass (`advance`) without sleeping. The code under test is untouched: the module-level names
+    `datetime` / `time` those modules looked up at import are rebound to a datetime subclass (only `now` / `utcnow`
+    shifted; instances it hands out are plain `datetime.datetime`) and to a proxy of the `time` module (only `time()`
+    shifted). Nothing is installed unless a check calls `install()`; `uninstall()` restores the original names.
+    `install()` returns the number of rebound names (0 = the code reads the time some other way: the check must not
+    claim that calendar time passed; C28 additionally compares RecentEngines.last_update with this calendar)."""
+
+    _DATETIME_SITES = ("openpectus.aggregator.data.repository", "openpectus.aggregator.aggregator")
+    _TIME_SITES = ("openpectus.aggregator.aggregator", "openpectus.aggregator.models",
+                   "openpectus.aggregator.webpush_publisher")
+
+    def __init__(self):
+        self.offset = 0.0
+        self._saved: list[tuple[Any, str, Any]] = []
+
+    def advance(self, seconds: float):
+        self.offset += float(seconds)
+
+    def now(self):
+        import datetime as _dt
+        return _dt.datetime.now(_dt.UTC) + _dt.timedelta(seconds=self.offset)
+
+    def install(self) -> int:
+        import datetime as _dt
+        import importlib
+        import time as _time
+        if self._saved:
+            return len(self._saved)
+        clock = self
+        real = _dt.datetime
+
+        class ShiftedDatetime(real):
+            @classmethod
+            def now(cls, tz=None):
+                return real.now(tz) + _dt.timedelta(seconds=clock.offset)
+
+            @classmethod
+            def utcnow(cls):
+                return real.utcnow() + _dt.timedelta(seconds=clock.offset)
+
+            @classmethod
+            def fromtimestamp(cls, *a, **kw):
+                return real.fromtimestamp(*a, **kw)
+
+        class ShiftedTime:
+            def __getattr__(self, name):
+                return getattr(_time, name)
+
+            @staticmethod
+            def time():
+                return _time.time() + clock.offset
+
+        for sites, attr, original, replacement in ((self._DATETIME_SITES, "datetime", real, ShiftedDatetime),
+                                                   (self._TIME_SITES, "time", _time, ShiftedTime())):
+            for modname in sites:
+                mod = importlib.import_module(modname)
+                if getattr(mod, attr, None) is original:
+                    self._saved.append((mod, attr, original))
+                    setattr(mod, attr, replacement)
+        return len(self._saved)
+
+    def uninstall(self):
+        for mod, attr, original in self._saved:
+            setattr(mod, attr, original)
+        self._saved = []
+        self.offset = 0.0
